@@ -231,7 +231,9 @@ impl MeCabOovPlugin {
             }
             for i in 1..=cinfo.length {
                 let sublength = input.char_distance(offset, i as usize);
-                if sublength > llength {
+                // char_distance saturates at the end of the text: a candidate of `i` characters
+                // does not exist there, and repeating the previous one would duplicate its nodes
+                if sublength > llength || sublength < i as usize {
                     break;
                 }
                 for oov in oovs {
